@@ -142,6 +142,19 @@ Theorem C05_translated_conversion_is_model_conversion : forall e p t ty raw,
   go_strconv (tp_conv t) (tp_bits t) raw = convert ty raw.
 Proof. exact translated_conversion_is_model_conversion. Qed.
 
+(* "from its declared source": the outcome depends on the request only through the body and through what it
+   carries at the declared location under the wire name of each parameter - a decoy under the same name in
+   another location, or any other field, cannot influence it *)
+Theorem C05_depends_only_on_declared_sources : forall cfg c m tbl sc r1 r2,
+  agree_on (m_params m) r1 r2 -> handle cfg c m tbl sc r1 = handle cfg c m tbl sc r2.
+Proof. exact handle_depends_only_on_declared_sources. Qed.
+
+Example C05_decoy_ignored :
+  handle demo_cfg demo_ctrl demo_method [] (mkOp false None) (demo_rq "5" "7") =
+  handle demo_cfg demo_ctrl demo_method [] (mkOp false None)
+         (mkReq (rq_fields (demo_rq "5" "7") ++ [(LQuery, s "id", [s "999"]); (LForm, s "X-q", [s "0"]); (LHeader, s "other", [s "z"])]) BEmpty).
+Proof. exact demo_decoy_ignored. Qed.
+
 Example C05_handler_nonvacuous :
   snd (handle demo_cfg demo_ctrl demo_method [] (mkOp false None) (demo_rq "128" "7")) = Rejected (s "id") /\
   snd (handle demo_cfg demo_ctrl demo_method [] (mkOp false None) (demo_rq "5" "2")) = Rejected (s "q").
@@ -168,3 +181,5 @@ Print Assumptions C05_handler_roundtrip.
 Print Assumptions C05_handler_nonvacuous.
 Print Assumptions C05_documented_required_is_enforced.
 Print Assumptions C05_translated_conversion_is_model_conversion.
+Print Assumptions C05_depends_only_on_declared_sources.
+Print Assumptions C05_decoy_ignored.
